@@ -257,16 +257,35 @@ func (w *World) BuildTx(t *Tx, forCheck bool) *BuiltTx {
 		}
 	}
 	bt.Expect = Expect{Verdict: verdict, Props: props, Why: why}
+	var explicitPayer sdk.AccAddress
+	if t.FeePayer > 0 && len(signers) > 0 {
+		// an explicit fee payer co-signs (after the message signers, unless it is one of them)
+		fp := w.acct(t.FeePayer - 1)
+		already := false
+		for _, s := range signers {
+			if s.Key() == fp.Key() {
+				already = true
+			}
+		}
+		if !already {
+			signers = append(signers, fp)
+		}
+		explicitPayer = fp.Bytes
+		w.Class("tx.with-explicit-fee-payer")
+	}
 	bt.Signers = signers
 	if len(signers) > 0 {
 		bt.Payer = signers[0]
+	}
+	if explicitPayer != nil {
+		bt.Payer = w.acct(t.FeePayer - 1)
 	}
 	bt.Fee = w.feeFor(t, bt.Ops)
 	gas := t.Gas
 	if gas == 0 {
 		gas = DefaultGas
 	}
-	spec := lab.TxSpec{Msgs: msgs, Fee: bt.Fee, Gas: gas, Fault: t.Fault}
+	spec := lab.TxSpec{Msgs: msgs, Fee: bt.Fee, Gas: gas, Fault: t.Fault, Payer: explicitPayer}
 	for _, s := range signers {
 		if s.Acct == nil {
 			bt.BuildErr = fmt.Errorf("signer %s has no key", s.Name)
@@ -275,7 +294,7 @@ func (w *World) BuildTx(t *Tx, forCheck bool) *BuiltTx {
 		spec.Signers = append(spec.Signers, s.Acct)
 	}
 	if t.Fault == lab.FaultWrongKey {
-		spec.WrongKeyWith = w.acct(bt.Payer.Acct.Idx + 1).Acct
+		spec.WrongKeyWith = w.acct(signers[0].Acct.Idx + 1).Acct // the first signer's signature is made with another account's key
 	}
 	if t.Granter > 0 {
 		g := w.acct(t.Granter - 1)
@@ -408,6 +427,29 @@ func (w *World) RunTx(t *Tx) *BuiltTx {
 					}
 				}
 			}
+		}
+	}
+	if checkOnly || (bt.Delivered && !bt.OK) {
+		for _, o := range bt.Ops {
+			switch o.Op.Kind {
+			case WrkRec, BcnRec, WrkPur, BcnPur:
+				if !o.LiveTarget && o.ID != 0 && o.Signer.Acct != nil && len(w.Ghosts) < 64 {
+					w.Ghosts = append(w.Ghosts, Ghost{Module: o.Module, ID: o.ID, Actor: o.Signer.Acct.Idx})
+				}
+			}
+		}
+	}
+	for _, o := range bt.Ops {
+		if o.Op.Ref == -4 && len(bt.Ops) > 1 {
+			switch {
+			case checkOnly:
+				w.Class("tx.forward-ref.check-only")
+			case bt.OK:
+				w.Class("tx.forward-ref.committed")
+			default:
+				w.Class(fmt.Sprintf("tx.forward-ref.rolled-back.%s/%d", bt.Res.Codespace, bt.Res.Code))
+			}
+			break
 		}
 	}
 	for _, h := range w.hooks {
